@@ -43,6 +43,7 @@ import (
 
 	"pdverif/internal/coqfmt"
 	"pdverif/internal/etcdx"
+	"pdverif/internal/pdcluster"
 	"pdverif/internal/res"
 	"pdverif/internal/rng"
 )
@@ -1328,6 +1329,174 @@ func fullSyncTwiceProbe(R *res.Result, seed uint64) {
 	}
 }
 
+// stalledFollowerProbe: the RPC layer above the syncer (server/grpc_service.go SyncRegions) on a real PD server. The
+// "follower" is a raw gRPC client of the leader's real endpoint with the smallest flow-control window; it synchronises,
+// then does not read its stream for 6.5 s while the leader broadcasts changes of regions with long keys (a busy follower:
+// compaction, a long start-up load, a GC pause), then reads again. Its stream never failed. Everything broadcast during
+// and AFTER the stall must arrive: whatever the layers above the syncer do about a slow Send, they must not leave an
+// open, error-free stream out of the broadcasts.
+func stalledFollowerProbe(R *res.Result) {
+	R.Count("probe:stalled-follower")
+	c, err := pdcluster.Start(1, nil)
+	if err != nil {
+		R.Notes = append(R.Notes, "stalled-follower probe skipped: "+err.Error())
+		return
+	}
+	defer c.Close()
+	l := c.WaitLeader(60 * time.Second)
+	if l == nil {
+		R.Notes = append(R.Notes, "stalled-follower probe skipped: no PD leader")
+		return
+	}
+	ctx, cancel := context.WithCancel(context.Background())
+	defer cancel()
+	peer := &metapb.Peer{Id: 3, StoreId: 1}
+	if _, err := l.S.Bootstrap(ctx, &pdpb.BootstrapRequest{Header: &pdpb.RequestHeader{ClusterId: l.S.ClusterID()},
+		Store:  &metapb.Store{Id: 1, Address: "mock://tikv-1", Version: "5.0.0"},
+		Region: &metapb.Region{Id: 2, Peers: []*metapb.Peer{peer}, RegionEpoch: &metapb.RegionEpoch{ConfVer: 1, Version: 1}}}); err != nil {
+		R.Notes = append(R.Notes, "stalled-follower probe skipped: bootstrap: "+err.Error())
+		return
+	}
+	rc := l.S.GetRaftCluster()
+	for deadline := time.Now().Add(10 * time.Second); rc == nil && time.Now().Before(deadline); rc = l.S.GetRaftCluster() {
+		time.Sleep(10 * time.Millisecond)
+	}
+	if rc == nil {
+		R.Notes = append(R.Notes, "stalled-follower probe skipped: no raft cluster")
+		return
+	}
+	addr := strings.TrimPrefix(strings.Split(l.Cfg.ClientUrls, ",")[0], "http://")
+	conn, err := grpc.Dial(addr, grpc.WithInsecure(), grpc.WithInitialWindowSize(65535), grpc.WithInitialConnWindowSize(65535),
+		grpc.WithDefaultCallOptions(grpc.MaxCallRecvMsgSize(64<<20)))
+	if err != nil {
+		R.Notes = append(R.Notes, "stalled-follower probe skipped: dial: "+err.Error())
+		return
+	}
+	defer conn.Close()
+	stream, err := pdpb.NewPDClient(conn).SyncRegions(ctx)
+	if err != nil {
+		R.Notes = append(R.Notes, "stalled-follower probe skipped: SyncRegions: "+err.Error())
+		return
+	}
+	if err := stream.Send(&pdpb.SyncRegionRequest{Header: &pdpb.RequestHeader{ClusterId: l.S.ClusterID()},
+		Member: &pdpb.Member{Name: "probe-follower", ClientUrls: []string{"http://127.0.0.1:1"}}, StartIndex: 0}); err != nil {
+		R.Notes = append(R.Notes, "stalled-follower probe skipped: first request: "+err.Error())
+		return
+	}
+	var mu sync.Mutex
+	gotVer := map[uint64]uint64{} // region id -> highest version received
+	var recvErr error
+	gate := make(chan struct{}, 1) // the reader takes a token before every Recv: no token, no reading
+	open := true
+	go func() {
+		for {
+			<-gate
+			resp, err := stream.Recv()
+			if err != nil {
+				mu.Lock()
+				recvErr = err
+				mu.Unlock()
+				return
+			}
+			mu.Lock()
+			for _, r := range resp.GetRegions() {
+				if v := r.GetRegionEpoch().GetVersion(); v > gotVer[r.GetId()] {
+					gotVer[r.GetId()] = v
+				}
+			}
+			o := open
+			mu.Unlock()
+			if o {
+				select {
+				case gate <- struct{}{}:
+				default:
+				}
+			}
+		}
+	}()
+	gate <- struct{}{}
+	hb := func(id, ver uint64, keyLen int) {
+		pad := strings.Repeat("k", keyLen)
+		m := &metapb.Region{Id: id, StartKey: []byte(fmt.Sprintf("%s%06d", pad, id)), EndKey: []byte(fmt.Sprintf("%s%06d", pad, id+1)),
+			RegionEpoch: &metapb.RegionEpoch{ConfVer: 1, Version: ver}, Peers: []*metapb.Peer{{Id: id*10 + 1, StoreId: 1}}}
+		if err := rc.HandleRegionHeartbeat(core.NewRegionInfo(m, m.Peers[0])); err != nil {
+			R.Notes = append(R.Notes, "stalled-follower probe: heartbeat: "+err.Error())
+		}
+	}
+	have := func(lo, hi, ver uint64) bool {
+		mu.Lock()
+		defer mu.Unlock()
+		for id := lo; id < hi; id++ {
+			if gotVer[id] < ver {
+				return false
+			}
+		}
+		return true
+	}
+	wait := func(d time.Duration, cond func() bool) bool {
+		for deadline := time.Now().Add(d); time.Now().Before(deadline); time.Sleep(5 * time.Millisecond) {
+			if cond() {
+				return true
+			}
+		}
+		return cond()
+	}
+	// phase 1: bound and receiving
+	for id := uint64(1000); id < 1010; id++ {
+		hb(id, 2, 8)
+	}
+	if !wait(10*time.Second, func() bool { return have(1000, 1010, 2) }) {
+		R.Notes = append(R.Notes, "stalled-follower probe: the first broadcasts did not arrive (set-up)")
+		return
+	}
+	// phase 2: the follower stops reading; the leader broadcasts ~1.3 MB in several messages
+	mu.Lock()
+	open = false
+	mu.Unlock()
+	time.Sleep(50 * time.Millisecond) // the reader is now parked in front of the gate or inside its last Recv
+	go func() {
+		for round := 0; round < 4; round++ {
+			for id := uint64(2000); id < 2020; id++ {
+				hb(id, uint64(2+round), 8000)
+			}
+			time.Sleep(300 * time.Millisecond)
+		}
+	}()
+	time.Sleep(6500 * time.Millisecond)
+	// phase 3: it reads again; the stream has not failed
+	mu.Lock()
+	open = true
+	failed := recvErr
+	mu.Unlock()
+	select {
+	case gate <- struct{}{}:
+	default:
+	}
+	if failed != nil {
+		R.Notes = append(R.Notes, "stalled-follower probe: the stream failed during the stall: "+failed.Error())
+		return
+	}
+	during := wait(15*time.Second, func() bool { return have(2000, 2020, 5) })
+	for id := uint64(3000); id < 3010; id++ {
+		hb(id, 2, 8)
+	}
+	after := wait(8*time.Second, func() bool { return have(3000, 3010, 2) })
+	mu.Lock()
+	failed = recvErr
+	mu.Unlock()
+	if failed != nil {
+		// the leader ended the stream: a real follower reconnects and synchronises again - not what this probe is about
+		R.Notes = append(R.Notes, "stalled-follower probe: the leader ended the stream after the stall ("+failed.Error()+"): a follower would reconnect")
+		return
+	}
+	if !during || !after {
+		R.Violate("C16:broadcast:not-delivered-after-stall",
+			fmt.Sprintf("real PD server, a follower's stream (raw client of SyncRegions) did not read for 6.5 s while 80 changes of regions with 8 kB keys were broadcast, then read again; the stream is open and error-free on both sides; the changes broadcast during the stall arrived: %v; 10 changes broadcast after it arrived: %v (stream bound on the leader's syncer: %v)",
+				during, after, l.S.GetRaftCluster() != nil),
+			map[string]interface{}{"probe": "stalled-follower", "stall_ms": 6500})
+	}
+}
+
 func genCut(r *rng.R, k int) Case {
 	sizes := []int{101, 150, 230, 250}
 	n := sizes[k%len(sizes)]
@@ -1993,6 +2162,8 @@ func main() {
 			*nchain *= 4
 			*ncut *= 4
 		}
+		stallR, stallDone := res.New("C16", *seed, *tier), make(chan struct{})
+		go func() { defer close(stallDone); stalledFollowerProbe(stallR) }()
 		bigWindowProbe(R)
 		fullSyncTwiceProbe(R, *seed)
 		// S8 regression (fixed by 3a92c2a): a reset is persisted
@@ -2035,6 +2206,19 @@ func main() {
 				}
 				R.Notes = append(R.Notes, Rk.Notes...)
 				R.Count("probe:half-open")
+				rmu.Unlock()
+			}()
+			wg.Add(1)
+			go func() { // started at the beginning of the run (a real PD server and a 6.5 s stall): collected here
+				defer wg.Done()
+				<-stallDone
+				Rk := stallR
+				rmu.Lock()
+				for _, v := range Rk.Violations {
+					R.Violate(v.Sig, v.Desc, v.Replay)
+				}
+				R.Notes = append(R.Notes, Rk.Notes...)
+				R.Count("probe:stalled-follower")
 				rmu.Unlock()
 			}()
 			for k := 0; k < *ncut; k++ {
